@@ -101,13 +101,13 @@ func vH_FP_absbits(data []byte) {
 // ---- C04 tier 5f: the digit buffer holds every exact halfway point --------------------------------
 // man*2^e2 and (man+1)*2^e2 are neighbouring binary64 values of one binade (e2 = -1074 covers the
 // subnormals and the first normal binade); their midpoint (2*man+1)*2^(e2-1) is a finite decimal. If
-// its digits did not fit the buffer, decimal.set would drop some, set trunc, and the tie would be
-// rounded up instead of to even. In the engine the obligation is over every man (integer arithmetic);
-// natively the midpoint's literal is parsed through the public entry point and must give the even one.
+// its digits did not fit the buffer, decimal.set would drop some and the literal would no longer look
+// like a tie: it is then rounded down whatever the parity (wrong for odd man). In the engine the
+// obligation is over every man (integer arithmetic; a witness with odd man is preferred); natively the
+// midpoint's literal is parsed through the public entry point and must give the even neighbour.
 func vH_FP_halfway(e2 int) {
 	man := vNondetUint64("man")
-	vAssume(man < 1<<53)
-	vAssume(man&1 == 0)
+	vAssume(man < 1<<53-1)
 	if e2 > -1074 {
 		vAssume(man >= 1<<52)
 	}
